@@ -453,6 +453,15 @@ def check(prop, tier):
         def report_pred(n, r, origin):
             clause = r[len(prop) + 1:]
             caseline = lines[n - 1] if 0 < n <= len(lines) else ""
+            marker = eng.get("liveness_marker")
+            if marker and (marker in caseline.split(" => ")[-1].replace(";", ",").replace("|", ",").split(",")):
+                # a liveness timeout: re-run with 5x the timeout before it counts (safety failures are never retried)
+                os.environ["VERIF_TIMEOUT_MS"] = "2000"
+                again = case_fails(engine, prop, caseline.split(" => ")[0], "P")
+                os.environ.pop("VERIF_TIMEOUT_MS", None)
+                if again is None:
+                    extra["liveness_timeouts_not_reproduced"] = extra.get("liveness_timeouts_not_reproduced", 0) + 1
+                    return
             small, got = shrink(engine, prop, caseline, "P")
             if got is None:
                 small, got = caseline.split(" => ")[0], (caseline, r)
